@@ -55,6 +55,10 @@ def _build(cfg):
             dec.align_to(s["align_to"])
         dec.add(bus, name=(f"w{i}" if s.get("named") else None), addr=s.get("addr"))
         subs.append(bus)
+        if cfg.get("staged") == i + 1:
+            # the decoder is elaborated (e.g. a partial system is simulated) and extended afterwards
+            from amaranth.hdl import Fragment
+            Fragment.get(dec, None)
     rejected = []
     if cfg.get("rejected"):
         # an add() that is refused (out-of-bounds explicit address) must leave no trace in the hardware
@@ -78,7 +82,7 @@ def configs(tier, seed):
         tries += 1
         aw = rnd.randint(3, 7 if tier == "quick" else 9) if tries % 25 else rnd.choice([12, 16])
         cfg = {"aw": aw, "dw": rnd.choice([8, 16]), "align": rnd.choice([0, 0, 0, 1, 2, 3]), "subs": [],
-               "rejected": rnd.random() < 0.3}
+               "rejected": rnd.random() < 0.3, "staged": rnd.choice([None, None, 1, 2])}
         for i in range(rnd.randint(1, 4 if tier == "quick" else 6)):
             s = {"aw": rnd.randint(1, aw - 1), "named": rnd.random() < 0.5, "res": rnd.random() < 0.7}
             mode = rnd.choice(["implicit", "implicit", "explicit", "align_to"])
